@@ -1,5 +1,6 @@
 import Oas3Model.Driver.Util
 import Oas3Model.Model.EventStream
+import Oas3Model.Driver.Resp
 open Lean Oas3.Driver Oas3.Sse Oas3.EventStream
 
 namespace Oas3.Driver.Sse
@@ -45,35 +46,152 @@ def specItems (whole : List UInt8) : List Json × Bool :=
   let (_, _, evs) := drainAll cs' []
   ((evs.filter (fun d => !d.isEmpty)).map decJson, rem.isEmpty)
 
+/-- scripted transport: `[bytes..]` = `Ready(chunk)`, `"p"` = `Pending`, waker kept and woken after
+the call, `"w"` = `Pending`, waker woken before returning -/
+def stepsOf (j : Json) : Except String (List Step) := do
+  let a ← arr j
+  a.mapM fun x => match x with
+    | .str "p" => pure Step.pendLater
+    | .str "w" => pure Step.pendWake
+    | .arr bs => do
+      let ns ← bs.toList.mapM natOf
+      pure (Step.chunk (ns.map fun n => UInt8.ofNat n))
+    | _ => throw "script item"
+
+def pendingJson (inner woke : Bool) : Json :=
+  Json.mkObj [("pending", Json.mkObj [("inner", Json.bool inner), ("woke", Json.bool woke)])]
+
+def seenJson : Seen Json → Json
+  | .out .pending ip w => pendingJson ip w
+  | .out o _ _ => outJson o
+  | .stalled => Json.mkObj [("stalled", Json.bool true)]
+  | .fuel => "no-end"
+
+/-- what the harness reports per poll, read back -/
+inductive ImplItem
+  | pending (inner woke : Bool)
+  | stalled (after : Nat) (inner : Bool)
+  | noEnd
+  | item (j : Json)
+
+def implItemOf (j : Json) : ImplItem :=
+  match j.getObjVal? "pending" with
+  | .ok p => .pending ((p.getObjValAs? Bool "inner").toOption.getD false) ((p.getObjValAs? Bool "woke").toOption.getD false)
+  | .error _ =>
+    match j.getObjVal? "stalled" with
+    | .ok _ => .stalled ((j.getObjValAs? Nat "after_events").toOption.getD 0) ((j.getObjValAs? Bool "inner").toOption.getD false)
+    | .error _ => if j == Json.str "no-end" then .noEnd else .item j
+
 def run : Handler := fun req => do
   let inp ← field req "in"
-  let script ← scriptOf (← field inp "script")
+  let steps ← stepsOf (← field inp "script")
+  let script := steps.map Step.toIn
   let impl ← field req "impl"
-  let trace := outerTrace decJson (innerRun {} script)
-  let panics := trace.any (fun o => match o with | .panic => true | _ => false)
-  let model := if panics then Json.mkObj [("panic", Json.bool true)] else Json.arr (trace.map outJson).toArray
+  -- the model under EXECUTOR semantics (re-poll only when a wake-up is due); `exactly_once_exec`
+  let trace := execTrace decJson (innerRunW {} steps)
+  let panics := trace.any (fun o => match o with | .out .panic _ _ => true | _ => false)
+  let model := if panics then Json.mkObj [("panic", Json.bool true)] else Json.arr (trace.map seenJson).toArray
   let (want, cleanEnd) := specItems (allBytes script)
   let wantAll := want ++ (if cleanEnd then [] else [Json.str "sseerr"]) ++ [Json.str "done"]
   let judge ← match impl with
     | .arr xs =>
-      let items := xs.toList.filter (· != Json.str "pending")
-      let npend := (xs.toList.filter (· == Json.str "pending")).length
-      let spend := (script.filter (fun i => match i with | .pending => true | _ => false)).length
-      let modelItems := (trace.map outJson).filter (· != Json.str "pending")
-      if items == wantAll then
-        if npend ≤ spend then pure (verdict true [])
-        else pure (verdict false [] "more Pending results than the transport produced (spurious not-ready)")
+      let its := xs.toList.map implItemOf
+      let items := its.filterMap fun i => match i with | .item j => some j | _ => none
+      let modelItems := trace.filterMap fun s => match s with
+        | .out .pending _ _ => none
+        | .out o _ _ => some (outJson o)
+        | _ => none
+      let stall := its.findSome? fun i => match i with
+        | .stalled k inner => some (k, inner)
+        | .pending false false => some (items.length, false)
+        | _ => none
+      match stall with
+      | some (k, inner) =>
+        pure (verdict false [] (s!"lost wake-up: poll_next answered Pending after {k} item(s) with no wake-up due (" ++
+          (if inner then "the transport took a waker, but waking it does not reach the task" else "the inner stream did not answer Pending in that call and the waker was not woken") ++
+          "): under an executor the consumer sleeps forever; still to come: " ++ (Json.arr (wantAll.drop k).toArray).compress))
+      | none =>
+      if its.any (fun i => match i with | .noEnd => true | _ => false) || items.getLast? != some (Json.str "done") then
+        pure (verdict false [] s!"the stream does not end: no Ready(None) after the byte stream ended; want {Json.arr wantAll.toArray |>.compress}")
+      else if items == wantAll then pure (verdict true [])
       else if items == modelItems && ((utf8Split (allBytes script)).1.getLast? == some '\r') then
         pure (verdict false ["KnownTrailingCR"] "last event lost: stream ends in a bare CR")
-      else pure (verdict false [] s!"items differ from the whole-stream parse: want {Json.arr wantAll.toArray |>.compress}")
+      else pure (verdict false [] s!"items differ from the whole-stream parse (missing, duplicated or reordered): want {Json.arr wantAll.toArray |>.compress}")
     | _ =>
       if panics && impl == model then pure (verdict false ["KnownBomPanic"] "stream starting with U+FEFF makes eventsource-stream panic (&string[1..])")
       else pure (verdict false [] "implementation did not return a trace (panic/abort)")
   let nchunks := (script.filter (fun i => match i with | .chunk _ => true | _ => false)).length
+  let skipped := ((innerRunW {} steps).filter (fun i => i == .ev [])).length
   let branch := s!"ev{want.length}" ++ (if !cleanEnd then "+utf8" else "") ++ (if nchunks > 1 then "+cut" else "") ++
-    (if script.any (fun i => match i with | .pending => true | _ => false) then "+pend" else "")
-  pure (answer model impl judge (if want.isEmpty && nchunks ≤ 1 then "trivial" else branch))
+    (if steps.any (fun i => match i with | .pendLater => true | _ => false) then "+pend" else "") ++
+    (if steps.any (fun i => match i with | .pendWake => true | _ => false) then "+wake" else "") ++
+    (if skipped ≥ 32 then "+skip32" else if skipped > 0 then "+skip" else "")
+  pure (answer model impl judge (if want.isEmpty && nchunks ≤ 1 && skipped == 0 then "trivial" else branch))
 
-def ops : List (String × Handler) := [("sse.run", run)]
+/-! ### how the stream is OBTAINED: the emitted `parse_response` of a status that declares
+`text/event-stream` next to other media types (tie E: client generated in-process) -/
+
+open Oas3.Resp Oas3.Status Oas3.Driver.Resp in
+def obtain : Handler := fun req => do
+  let inp ← field req "in"
+  let responses ← responsesOf (← field inp "responses")
+  let impl ← field req "impl"
+  let keys := (sortKeys responses).map (·.1)
+  let modelChain := chainOf responses
+  let modelJson := match modelChain with | some ch => chainJson ch | none => Json.null
+  let implChainJ := fieldD impl "chain" Json.null
+  let implChain := (chainOfJson implChainJ).toOption
+  let matched := match modelChain, implChain with
+    | some a, some b => a == b
+    | none, none => implChainJ == Json.null
+    | _, _ => false
+  let variants := (arr (fieldD impl "variants" (Json.arr #[]))).toOption.getD []
+  let vkey (name : List Char) : Option (List Char) :=
+    (variants.find? fun v => (v.getObjValAs? String "name").toOption == some (String.ofList name)).map fun v =>
+      docKey ((arr (fieldD v "docs" (Json.arr #[]))).toOption.getD [])
+  -- the model names a variant `<Status><type string>` (two groups of one category under a status):
+  -- `Okoas3_gen_support::EventStream<Pet>` is not an identifier, building the enum panics
+  let identOk (s : List Char) : Bool := match s with | c :: r => c.isAlpha && r.all (fun c => c.isAlphanum || c == '_') | [] => false
+  let modelBadIdent := (variantsOf responses).any fun v => !identOk v.name
+  let implPanics := (impl.getObjVal? "panic").toOption.isSome
+  let matched := matched || (modelBadIdent && implPanics)
+  -- keys whose response declares an event stream WITH an event type
+  let streamKeys := (responses.filter fun (_, ds) => ds.any fun d => catOf d.ct == .eventStream && d.schema.isSome).map (·.1)
+  let answers : List (List Char) := ["text/event-stream", "text/event-stream; charset=utf-8"].map String.toList
+  let judge := Id.run do
+    if implPanics || (impl.getObjVal? "err").toOption.isSome then
+      return verdict false (if modelBadIdent && implPanics then ["KnownVariantSuffixPanic"] else [])
+        s!"no client (hence no stream) for a response set with an event stream, the generator fails: {impl.compress}"
+    let some ch := implChain | return verdict false [] "no parse_response chain emitted"
+    let mut bad : Option (Nat × List Char × List Char × Case) := none
+    let mut badDefault : Option (Nat × List Char × List Char × Case) := none
+    for n in List.range 500 do
+      let n := n + 100
+      let want := specKey keys n
+      if streamKeys.contains want then
+        for ct in answers do
+          let got := evalChain ch n ct
+          let gk := (vkey got.variant).getD []
+          if !(got.extract == "event-stream".toList && lowerAscii gk == lowerAscii want) then
+            -- the `default` response is answered by the fallback, which knows ONE variant only
+            let viaFallback := (evalChainAux n ct ch.handlers).isNone && want == "default".toList &&
+              (match modelChain with | some mch => evalChain mch n ct == got | none => false)
+            if viaFallback then
+              if badDefault.isNone then badDefault := some (n, ct, want, got)
+            else
+              if bad.isNone then bad := some (n, ct, want, got)
+    let msg (b : Nat × List Char × List Char × Case) : String :=
+      let (n, ct, want, got) := b
+      s!"status {n} answered with content-type {String.ofList ct}: response {String.ofList want} declares text/event-stream, " ++
+        s!"but parse_response picks {String.ofList got.variant} and reads the body with `{String.ofList got.extract}` (no EventStream is handed out)"
+    match bad, badDefault with
+    | some b, _ => return verdict false [] (msg b)
+    | none, some b => return verdict false ["KnownDefaultStreamNotDispatched"] (msg b)
+    | none, none => return verdict true []
+  let nmedia := (responses.map fun r => r.2.length).foldl max 0
+  let branch := s!"k{keys.length}s{streamKeys.length}m{nmedia}"
+  pure (Json.mkObj [("model", modelJson), ("match", matched), ("judge", judge), ("branch", if streamKeys.isEmpty then "trivial" else branch)])
+
+def ops : List (String × Handler) := [("sse.run", run), ("sse.obtain", obtain)]
 
 end Oas3.Driver.Sse
